@@ -9,7 +9,7 @@ TEXTNS = 'urn:oasis:names:tc:opendocument:xmlns:text:1.0'
 
 class Universe:
     """a set of real nodes with stable ids. ids: document nodes first (preorder from topnode), then the free nodes"""
-    def __init__(self, attached, extra_free=()):
+    def __init__(self, attached, extra_free=(), prelinked=False):
         from odf import text, style
         from odf.element import Text, CDATASection
         self.doc = None
@@ -20,12 +20,18 @@ class Universe:
             from odf.opendocument import OpenDocumentText
             self.doc = OpenDocumentText()
             self._walk(self.doc.topnode)
-        free = [text.P(), text.P(), text.Span(), Text('t1'), Text('t2'), CDATASection('c1'),
+        # the two text nodes have equal content on purpose: nodes are found by identity, not by value
+        free = [text.P(), text.P(), text.Span(), Text('t'), Text('t'), CDATASection('t'),
                 style.Style(name='N1', family='paragraph'), text.List()] + list(extra_free)
         self.free_ids = []
         for n in free:
             self.free_ids.append(len(self.nodes)); self.nodes.append(n)
         self.names = {}
+        if prelinked:
+            # a non-trivial starting tree: P1 = [Span, T1, T2] (and P1 under office:text when attached)
+            p1, sp, t1, t2 = free[0], free[2], free[3], free[4]
+            p1.appendChild(sp); p1.appendChild(t1); p1.appendChild(t2)
+            if attached: self.doc.text.appendChild(p1)
     def _walk(self, n):
         from odf.element import Node
         self.nodes.append(n)
